@@ -46,6 +46,10 @@ def apply_patch(wt, seed_dir):
     sh("git reset -q", cwd=wt)
     sh("find . -name '*.orig' -o -name '*.rej' | xargs -r rm -f", cwd=wt)
     rc, diff = sh("git diff", cwd=wt)
+    if "\n+<<<<<<<" in diff or "\n+>>>>>>>" in diff:
+        # a 3-way merge that "succeeded" with conflict markers is not a re-base
+        sh("git checkout -q -- . && git clean -fdq", cwd=wt)
+        return "DOES NOT APPLY"
     if not (seed_dir / "patch.orig.diff").exists():
         shutil.copy(patch, seed_dir / "patch.orig.diff")
     patch.write_text(diff + "\n")
